@@ -97,6 +97,11 @@ inductive Beh
   | job (body : Beh)                 -- enqueue a promise reaction job
   -- generators (func.go generator / generatorObject, vm.go suspend / resume); yields at the top level of the body
   | yieldThen (a b : Beh)            -- body of a generator: run `a`, `yield`, and after the next resume `b`
+  | resumePoint                      -- (residuals only) where a suspended activation continues; a no-op
+  | yield_                           -- `yield` / `await` anywhere in the generator's own frame (inside try / for-of / block …)
+  -- the rest of a try statement that was suspended in its catch handler / in its finally block (only as residuals)
+  | tryH (hasFin : Bool) (cur fin : Beh)
+  | tryF (pending : Bool) (cur : Beh)
   | genNew (slot n : Nat) (f : FnInfo) (body : Beh)   -- `g<slot> = (function*(){ body })(args)`
   | genNext (slot : Nat)             -- generatorObject.next  (the native frame around it is a `frame native`)
   | genThrow (slot : Nat)            -- generatorObject.throw
@@ -155,6 +160,7 @@ structure Vm where
   interrupted : Bool
   jobQueue : List Beh
   gens : List (Nat × GenObj)       -- heap: generator objects by slot (global variables g<slot>)
+  resid : Beh                      -- when the outcome is `yielded`: the rest of the generator body (what resume continues with)
   -- ghost state for the correspondence
   probeCount : Nat
   faultAt : Option (Nat × FaultKind)
@@ -169,6 +175,7 @@ deriving DecidableEq, Repr, Inhabited
 /-- `fatal`: uncatchable (interrupt, stack overflow, fuel exhaustion).
 `stuck`: a model assertion failed (proved unreachable: `run_good`). -/
 inductive Outcome | normal | thrown | fatal | stuck | exit (k : ExitKind)
+  | yielded        -- a `yield` / `await` of the running generator activation was reached; `Vm.resid` is the rest of its body
 deriving DecidableEq, Repr, Inhabited
 
 abbrev Res := Outcome × Vm
@@ -180,7 +187,7 @@ def globalStash : List Nat := [0]
 def Vm.fresh (maxDepth : Nat) : Vm :=
   { prg := none, pc := 0, sp := 0, sb := -1, args := 0, stash := globalStash, privEnv := [],
     callStack := [], iterStack := [], refStack := [], tryStack := [], newTarget := 0, result := 0,
-    maxCallStackSize := maxDepth, stashAllocs := 0, interrupted := false, jobQueue := [], gens := [],
+    maxCallStackSize := maxDepth, stashAllocs := 0, interrupted := false, jobQueue := [], gens := [], resid := .skip,
     probeCount := 0, faultAt := none, trace := [] }
 
 /-! ### contexts (vm.go:906-937) -/
@@ -344,6 +351,11 @@ def finPhase (runF : RunF) (fin : Beh) (s : Vm) : Res :=
     match r.2.tryStack with
     | _ :: rest => (.exit e, { r.2 with tryStack := rest })
     | [] => (.stuck, r.2)
+  | .yielded =>
+    -- suspended inside the finally block: the (consumed) frame stays; resume continues in `tryF`
+    match r.2.tryStack with
+    | tf :: _ => (.yielded, { r.2 with resid := .tryF tf.exception.isSome r.2.resid })
+    | [] => (.stuck, r.2)
   | o => (o, r.2)
 
 /-- End of the protected region.  Without `finally`: leaveTry (pop).  With `finally`: the compiler emits a
@@ -378,6 +390,7 @@ def afterHandler (runF : RunF) (hasFin : Bool) (fin : Beh) (depth : Nat) (r : Re
   match r.1 with
   | .normal => leaveTry runF fin r.2
   | .exit e => exitThrough e (leaveTry runF fin r.2)
+  | .yielded => (.yielded, { r.2 with resid := .tryH hasFin r.2.resid fin })
   | .thrown => if hasFin then throwToFinally runF fin depth r.2 else (.thrown, r.2)
   | o => (o, r.2)
 
@@ -388,6 +401,7 @@ def tryStmt (runF : RunF) (hasCatch hasFin : Bool) (body handler fin : Beh) (s :
   match r1.1 with
   | .normal => leaveTry runF fin r1.2
   | .exit e => exitThrough e (leaveTry runF fin r1.2)
+  | .yielded => (.yielded, { r1.2 with resid := .try_ hasCatch hasFin r1.2.resid handler fin })
   | .thrown =>
     if hasCatch then
       let h := handleThrow runF true r1.2
@@ -402,6 +416,22 @@ def tryStmt (runF : RunF) (hasCatch hasFin : Bool) (body handler fin : Beh) (s :
     else if hasFin then throwToFinally runF fin depth r1.2
     else (.stuck, r1.2)          -- `try` without catch and finally does not parse
   | o => (o, r1.2)
+
+/-- Resuming a generator that was suspended inside the catch handler of a try statement.  vm.resume reinstalls the
+saved frame rebased to the new activation (callStackLen, iterLen, refLen, sp); the model states the SPEC of that
+rebasing: the frame is the one `pushTryFrame` creates in the resumed state, with the catch already consumed
+(`rebase_frameOf` in Props.lean proves the arithmetic of suspend/resume meets this spec). -/
+def tryResumeH (runF : RunF) (hasFin : Bool) (cur fin : Beh) (s : Vm) : Res :=
+  let depth := s.tryStack.length
+  let s0 := pushTryFrame (-1) (if hasFin then 20 else -1) s
+  afterHandler runF hasFin fin depth (runF cur s0)
+
+/-- … suspended inside the finally block: the frame is consumed; a pending exception is rethrown by leaveFinally -/
+def tryResumeF (runF : RunF) (pending : Bool) (cur : Beh) (s : Vm) : Res :=
+  match (pushTryFrame (-1) (-1) s).tryStack with
+  | tf :: rest =>
+    finPhase runF cur { s with tryStack := { tf with exception := if pending then some 1 else none } :: rest }
+  | [] => (.stuck, s)
 
 /-! ### Go-side boundaries -/
 
@@ -422,6 +452,7 @@ def tryB (runF : RunF) (b : Beh) (s : Vm) : Res :=
   | .normal => (.normal, popTryFrame r.2)
   | .exit _ => (.normal, popTryFrame r.2)     -- a Go callback has no break/return to propagate: plain return
   | .stuck => (.stuck, r.2)
+  | .yielded => unwindAtMarker runF .fatal r.2      -- (a yield cannot cross a function: SyntaxError in JS)
   | o => unwindAtMarker runF o r.2
 
 /-- the run loop under a boundary marker: `runTry` (vm.go) / the `for { runTryInner }` loop of `__call`; the loop
@@ -458,6 +489,7 @@ def goCall (runF : RunF) (n : Nat) (f : FnInfo) (b : Beh) (s : Vm) : Res :=
     | .normal => (.normal, goCallRet needPop r.2)
     | .exit _ => (.normal, goCallRet needPop r.2)     -- `return`: the same `ret` instruction
     | .stuck => (.stuck, r.2)
+    | .yielded => unwindAtMarker runF .fatal r.2
     | o => unwindAtMarker runF o r.2
 
 def runJobs (runF : RunF) : List Beh → Vm → Res
@@ -543,14 +575,38 @@ def runProgramOuter (runF : RunF) (lf : Nat) (p : Nat) (b : Beh) (s : Vm) : Res 
 /-! ### generators (func.go: generator.enter / enterNext / step / next / nextThrow, generatorObject.init / next /
 throw / _return; vm.go: suspend / resume) -/
 
-/-- the code up to the next top-level `yield` / `await`, and what follows it -/
-def firstSeg : Beh → Beh
-  | .yieldThen a _ => a
-  | b => b
+/-! #### vm.suspend / vm.resume on the records of the activation (mechanism level)
 
-def restSeg : Beh → Option Beh
-  | .yieldThen _ b => some b
-  | _ => none
+The interpreter above uses the SPEC of suspend/resume: a resumed activation finds, for every construct it was
+suspended in, the record that entering the construct afresh in the resumed state would create (`tryResumeH`,
+`tryResumeF`, re-entered `frame`s).  The two functions below transcribe what vm.go actually does to a saved try frame;
+`rebase_meets_spec` (Props.lean) proves that it yields exactly that record. -/
+
+/-- vm.suspend (vm.go): a try frame moved into the generator object is made relative to the stored lengths and to
+the activation's stack base `sb - 1` -/
+def suspendFrame (iterStackLen refStackLen : Nat) (sb : Int) (tf : TryFrame) : TryFrame :=
+  { tf with iterLen := tf.iterLen - iterStackLen, refLen := tf.refLen - refStackLen, sp := tf.sp - (sb - 1) }
+
+/-- vm.resume (vm.go): … and rebased onto the resuming activation (`sp` = vm.sp before the saved operands are pushed) -/
+def resumeFrame (callLen iterLen refLen : Nat) (sp : Int) (tf : TryFrame) : TryFrame :=
+  { tf with callStackLen := callLen, iterLen := tf.iterLen + iterLen, refLen := tf.refLen + refLen, sp := tf.sp + sp }
+
+/-- generator.throw(v) / generator.return(v): the suspended activation continues with a `throw` / `return` AT the point
+where it was suspended (`resumePoint`, found along the spine of the residual); a body that has not started yet gets
+it in front. -/
+def inject (what : Beh) : Beh → Beh
+  | .resumePoint => what
+  | .seq a b => .seq (inject what a) b
+  | .frame k ret c => .frame k ret (inject what c)
+  | .try_ hc hf c h f => .try_ hc hf (inject what c) h f
+  | .tryH hf c f => .tryH hf (inject what c) f
+  | .tryF p c => .tryF p (inject what c)
+  | b => .seq what b
+
+def resumeBody (what : Option Beh) (rest : Beh) : Beh :=
+  match what with
+  | none => rest
+  | some w => inject w rest
 
 def getGen (s : Vm) (slot : Nat) : Option GenObj := (s.gens.find? (·.1 == slot)).map (·.2)
 
@@ -570,8 +626,11 @@ def genEnterNext (g : GenObj) (s : Vm) : Option Vm :=
 
 /-- a `yield` reached: step1 suspends (`vm.sp = vm.sb - 1`, the halt frame is dropped), then generator.next pops the
 marker and the caller's context -/
-def genLeave (s5 : Vm) : Vm :=
-  popCtx (popTryFrame { s5 with sp := s5.sb - 1, callStack := s5.callStack.dropLast })
+def genLeave (tl il rl : Nat) (s5 : Vm) : Vm :=
+  -- vm.suspend moves the records above the stored lengths into the generator object (here: they are implied by the residual)
+  popCtx (popTryFrame { s5 with sp := s5.sb - 1, callStack := s5.callStack.dropLast,
+                                tryStack := s5.tryStack.drop (s5.tryStack.length - tl),
+                                iterStack := s5.iterStack.take il, refStack := s5.refStack.take rl })
 
 /-- the body returned: `ret` (sp := sb; popCtx = the halt frame), `vm.pop()`, then as above -/
 def genFinish (s5 : Vm) : Vm :=
@@ -598,71 +657,41 @@ def genNew (slot n : Nat) (f : FnInfo) (body : Beh) (s : Vm) : Res :=
       let t := popCtx (popTryFrame s3)
       (.normal, setGen { t with sp := s.sp } slot g)
 
-/-- generatorObject.next → generator.next → step -/
-def genNext (runF : RunF) (slot : Nat) (s : Vm) : Res :=
+/-- generatorObject.next / throw / _return → generator.next / nextThrow → step.  `what = none`: next(); `some throw_` /
+`some return_`: the activation continues with that statement at its suspension point (for a generator suspended with
+`finally` blocks live this runs them, as generator._return's enterNextFinallyFrame does). -/
+def genResume (runF : RunF) (slot : Nat) (what : Option Beh) (isThrow : Bool) (s : Vm) : Res :=
   match getGen s slot with
-  | none => (.normal, s)
+  | none => if isThrow then (.thrown, s) else (.normal, s)
   | some g =>
     match g.state with
-    | .completed => (.normal, s)
+    | .completed => if isThrow then (.thrown, s) else (.normal, s)
     | .executing => (.thrown, s)                      -- validate(): TypeError "Illegal generator state"
     | .suspended =>
-      match genEnterNext g s with
-      | none => (.fatal, setGen s slot { g with state := .executing })
-      | some s4' =>
-        let s4 := setGen s4' slot { g with state := .executing, started := true }
-        let seg : Beh := firstSeg g.rest
-        let r := if s4.interrupted then (Outcome.fatal, s4) else runF seg s4
-        match r.1 with
-        | .normal =>
-          (match restSeg g.rest with
-           | some b =>
-             (.normal, setGen (genLeave r.2) slot
-                { rest := b, ctx := saveCtx r.2, stackLen := (r.2.sp - r.2.sb + 1).toNat, state := .suspended, started := true })
-           | none => (.normal, setGen (genFinish r.2) slot (genDone g)))
-        | .exit _ => (.normal, setGen (genFinish r.2) slot (genDone g))     -- `return` inside the generator
-        | .stuck => r
-        | o =>
-          -- uncaught in the generator: handleThrow stops at enterNext's marker; thrown: next() pops marker and caller
-          -- context, generatorObject.step marks it completed and re-panics; uncatchable: step's deferred function drops the
-          -- marker, the state stays `executing`
-          let u := unwindAtMarker runF o r.2
-          (match u.1 with
-           | .thrown => (.thrown, setGen (popCtx u.2) slot (genDone g))
-           | _ => u)
-
-/-- generatorObject.throw → generator.nextThrow: handleThrow inside the resumed activation; with no handler live at a
-top-level yield it stops at enterNext's marker -/
-def genThrow (runF : RunF) (slot : Nat) (s : Vm) : Res :=
-  match getGen s slot with
-  | none => (.thrown, s)
-  | some g =>
-    match g.state with
-    | .completed => (.thrown, s)
-    | .executing => (.thrown, s)
-    | .suspended =>
-      if !g.started then (.thrown, setGen s slot (genDone g))
+      if what.isSome && !g.started then
+        (if isThrow then .thrown else .normal, setGen s slot (genDone g))      -- genStateSuspendedStart → completed
       else
         match genEnterNext g s with
         | none => (.fatal, setGen s slot { g with state := .executing })
-        | some s4 =>
-          let u := unwindAtMarker runF .thrown s4
-          (u.1, setGen (popCtx u.2) slot (genDone g))
-
-/-- generatorObject._return with no `finally` live at the suspension point -/
-def genReturn (slot : Nat) (s : Vm) : Res :=
-  match getGen s slot with
-  | none => (.normal, s)
-  | some g =>
-    match g.state with
-    | .completed => (.normal, s)
-    | .executing => (.thrown, s)
-    | .suspended =>
-      if !g.started then (.normal, setGen s slot (genDone g))
-      else
-        match genEnterNext g s with
-        | none => (.fatal, setGen s slot { g with state := .executing })
-        | some s4 => (.normal, setGen (genLeave s4) slot (genDone g))
+        | some s4' =>
+          let s4 := setGen s4' slot { g with state := .executing, started := true }
+          let body : Beh := resumeBody what g.rest
+          let r := if s4.interrupted then (Outcome.fatal, s4) else runF body s4
+          match r.1 with
+          | .yielded =>
+            (.normal, setGen (genLeave s4.tryStack.length s4.iterStack.length s4.refStack.length r.2) slot
+               { rest := r.2.resid, ctx := saveCtx r.2, stackLen := (r.2.sp - r.2.sb + 1).toNat, state := .suspended, started := true })
+          | .normal => (.normal, setGen (genFinish r.2) slot (genDone g))
+          | .exit _ => (.normal, setGen (genFinish r.2) slot (genDone g))     -- `return` inside the generator
+          | .stuck => r
+          | o =>
+            -- uncaught in the generator: handleThrow stops at enterNext's marker; thrown: next() pops marker and caller
+            -- context, generatorObject.step marks it completed and re-panics; uncatchable: step's deferred function drops the
+            -- marker, the state stays `executing`
+            let u := unwindAtMarker runF o r.2
+            (match u.1 with
+             | .thrown => (.thrown, setGen (popCtx u.2) slot (genDone g))
+             | _ => u)
 
 /-- asyncRunner.start: enter() (caller saved, marker), vmCall (callee context, its saved pc = -2 makes `ret` halt), step()
 runs the first segment.  `await`: suspend, the continuation is queued as a promise reaction job (the awaited value is
@@ -689,18 +718,18 @@ def asyncNew (runF : RunF) (n : Nat) (f : FnInfo) (body : Beh) (s : Vm) : Res :=
     match actCall n f s3 with
     | none => (.fatal, popTryFrame s3)                 -- dropMarkerOnPanic
     | some s5 =>
-      let seg : Beh := firstSeg body
-      let r := if s5.interrupted then (Outcome.fatal, s5) else runF seg s5
+      let r := if s5.interrupted then (Outcome.fatal, s5) else runF body s5
       match r.1 with
-      | .normal =>
-        (match restSeg body with
-         | some b =>
-           let id := 1000 + r.2.gens.length
-           let g : GenObj := { rest := b, ctx := saveCtx r.2, stackLen := (r.2.sp - r.2.sb + 1).toNat, state := .suspended, started := true }
-           let t : Vm := { r.2 with sp := r.2.sb - 1, callStack := r.2.callStack.dropLast }       -- suspend
-           let t := setGen t id g
-           (.normal, actBack s (popTryFrame { t with jobQueue := t.jobQueue ++ [.asyncResume id] }))
-         | none => (.normal, actBack s (popTryFrame (popCtx { r.2 with sp := r.2.sb }))))          -- `ret`
+      | .yielded =>
+        -- `await`: suspend (records above the stored lengths go into the runner), queue the continuation
+        let id := 1000 + r.2.gens.length
+        let g : GenObj := { rest := r.2.resid, ctx := saveCtx r.2, stackLen := (r.2.sp - r.2.sb + 1).toNat, state := .suspended, started := true }
+        let t : Vm := { r.2 with sp := r.2.sb - 1, callStack := r.2.callStack.dropLast,
+                                 tryStack := r.2.tryStack.drop (r.2.tryStack.length - s5.tryStack.length),
+                                 iterStack := r.2.iterStack.take s5.iterStack.length, refStack := r.2.refStack.take s5.refStack.length }
+        let t := setGen t id g
+        (.normal, actBack s (popTryFrame { t with jobQueue := t.jobQueue ++ [.asyncResume id] }))
+      | .normal => (.normal, actBack s (popTryFrame (popCtx { r.2 with sp := r.2.sb })))           -- `ret`
       | .exit _ => (.normal, actBack s (popTryFrame (popCtx { r.2 with sp := r.2.sb })))
       | .stuck => r
       | o =>
@@ -720,16 +749,13 @@ def asyncResume (runF : RunF) (id : Nat) (s : Vm) : Res :=
     match genEnterNext g s with
     | none => (.fatal, s)
     | some s4 =>
-      let seg : Beh := firstSeg g.rest
-      let r := if s4.interrupted then (Outcome.fatal, s4) else runF seg s4
+      let r := if s4.interrupted then (Outcome.fatal, s4) else runF g.rest s4
       match r.1 with
-      | .normal =>
-        (match restSeg g.rest with
-         | some b =>
-           let g' : GenObj := { rest := b, ctx := saveCtx r.2, stackLen := (r.2.sp - r.2.sb + 1).toNat, state := .suspended, started := true }
-           let t := setGen (genLeave r.2) id g'
-           (.normal, { t with jobQueue := t.jobQueue ++ [.asyncResume id] })
-         | none => (.normal, setGen (genFinish r.2) id (genDone g)))
+      | .yielded =>
+        let g' : GenObj := { rest := r.2.resid, ctx := saveCtx r.2, stackLen := (r.2.sp - r.2.sb + 1).toNat, state := .suspended, started := true }
+        let t := setGen (genLeave s4.tryStack.length s4.iterStack.length s4.refStack.length r.2) id g'
+        (.normal, { t with jobQueue := t.jobQueue ++ [.asyncResume id] })
+      | .normal => (.normal, setGen (genFinish r.2) id (genDone g))
       | .exit _ => (.normal, setGen (genFinish r.2) id (genDone g))
       | .stuck => r
       | o =>
@@ -744,7 +770,24 @@ def seqRes (runF : RunF) (a b : Beh) (s : Vm) : Res :=
   let r := runF a s
   match r.1 with
   | .normal => runF b r.2
+  | .yielded => (.yielded, { r.2 with resid := .seq r.2.resid b })
   | o => (o, r.2)
+
+/-- `a; yield; b` -/
+def yieldThenRes (runF : RunF) (a b : Beh) (s : Vm) : Res :=
+  let r := runF a s
+  match r.1 with
+  | .normal => (.yielded, { r.2 with resid := .seq .resumePoint b })
+  | .yielded => (.yielded, { r.2 with resid := .seq r.2.resid (.yieldThen .skip b) })
+  | o => (o, r.2)
+
+/-- a suspension inside a bracketing frame: its records stay on the stacks (vm.suspend moves them into the generator
+object), resume re-enters the frame; a yield cannot cross a function -/
+def frameYield (k : FrameKind) (ret : Beh) (s2 : Vm) : Res :=
+  match k with
+  | .call _ _ => (.fatal, s2)
+  | .native _ => (.fatal, s2)
+  | _ => (.yielded, { s2 with resid := .frame k ret s2.resid })
 
 /-- block-exit code of a bracketing frame crossed by a break / return (`s2` = state after the body) -/
 def frameExit (runF : RunF) (k : FrameKind) (ret : Beh) (e : ExitKind) (s2 : Vm) : Res :=
@@ -793,6 +836,7 @@ def step (lf : Nat) (runF : RunF) : Beh → Vm → Res
       match r.1 with
       | .normal => (.normal, k.post r.2)
       | .exit e => frameExit runF k ret e r.2
+      | .yielded => frameYield k ret r.2
       | o => (o, r.2)
   | .try_ hc hf body handler fin, s =>
     if hc || hf then tryStmt runF hc hf body handler fin s else runF body s
@@ -800,11 +844,15 @@ def step (lf : Nat) (runF : RunF) : Beh → Vm → Res
   | .api k b, s => apiNode lf runF k b s
   | .swallow k b, s => swallowRes k s (apiNode lf runF k b s)
   | .job b, s => (.normal, { s with jobQueue := s.jobQueue ++ [b] })
-  | .yieldThen a b, s => seqRes runF a b s      -- outside a generator activation: plain sequence
+  | .yieldThen a b, s => yieldThenRes runF a b s
+  | .yield_, s => (.yielded, { s with resid := .resumePoint })
+  | .resumePoint, s => (.normal, s)
+  | .tryH hf cur fin, s => tryResumeH runF hf cur fin s
+  | .tryF p cur, s => tryResumeF runF p cur s
   | .genNew slot n f body, s => genNew slot n f body s
-  | .genNext slot, s => genNext runF slot s
-  | .genThrow slot, s => genThrow runF slot s
-  | .genReturn slot, s => genReturn slot s
+  | .genNext slot, s => genResume runF slot none false s
+  | .genThrow slot, s => genResume runF slot (some .throw_) true s
+  | .genReturn slot, s => genResume runF slot (some .return_) false s
   | .asyncNew n f body, s => asyncNew runF n f body s
   | .asyncResume id, s => asyncResume runF id s
 
